@@ -3,9 +3,10 @@ import ClaripyProofs.Lemmas.VSA.NotExt
 import ClaripyProofs.Lemmas.VSA.Extract
 import ClaripyProofs.Lemmas.VSA.Signed
 import ClaripyProofs.Lemmas.VSA.NormalForm
+import ClaripyProofs.Lemmas.VSA.SextSound
 /-!
 The structural soundness theorem of `convBV`/`convB` with the *proved* interval operations discharged:
-`add, sub, neg, not, zero_extend, extract, udiv, shl, lshr, union (If), ULT/ULE/UGT/UGE, SLT/SLE/SGT/SGE`.
+`add, sub, neg, not, zero_extend, sign_extend, extract, udiv, shl, lshr, union (If), ULT/ULE/UGT/UGE, SLT/SLE/SGT/SGE`.
 The induction also carries constructor-normal form (`Nrm`), which the signed orderings need.  What is left as a hypothesis
 (`OpsRest`) is consulted only at nodes that use one of the remaining operations, so ASTs inside the proved fragment get
 an unconditional theorem.  The ASTs considered here have a defined value at every node (no division by zero anywhere,
@@ -31,9 +32,6 @@ structure OpsRest : Prop where
   bin : ∀ (op : BinOp) (a b r : SI) (o o' : Orders), restBin op = true → a.WF → b.WF → a.bits = b.bits →
     applyBin op a b o = .ok (r, o') →
     ((r.WF ∧ r.bits = a.bits) ∧ Nrm r) ∧ ∀ x y v, a.mem x → b.mem y → concBin op a.bits x y = some v → r.mem v
-  sext : ∀ (a r : SI) (k : Nat), a.WF → a.signExtend (k + a.bits) = .ok r →
-    ((r.WF ∧ r.bits = k + a.bits) ∧ Nrm r) ∧ ∀ x, a.mem x → r.mem (Conc.sext a.bits (k + a.bits) x)
-  sextKeeps : ∀ (a : SI) (k x : Nat), a.WF → sextKeeps a = .ok true → a.mem x → Conc.sext a.bits (k + a.bits) x = x
   concat : ∀ (a b r : SI), a.WF → b.WF → a.concat b = .ok r →
     ((r.WF ∧ r.bits = a.bits + b.bits) ∧ Nrm r) ∧ ∀ x y, a.mem x → b.mem y → r.mem (Conc.concat b.bits x y)
   meet : ∀ (a b r : SI) (x : Nat), a.WF → b.WF → a.bits = b.bits → a.intersection b = .ok r → a.mem x → b.mem x →
@@ -49,7 +47,7 @@ def usesRestBV : BV → Bool
   | .neg a => usesRestBV a
   | .not a => usesRestBV a
   | .zext _ a => usesRestBV a
-  | .sext _ _ => true
+  | .sext _ a => usesRestBV a
   | .extract _ _ a => usesRestBV a
   | .concat _ _ => true
   | .ite c a b => usesRestB c || usesRestBV a || usesRestBV b
@@ -249,36 +247,6 @@ theorem overRange_nrm (self : SI) (lower upper : Nat) (f : Nat → R SI) (r : SI
     have : r = u.renorm := by cases h; rfl
     exact nrm_of_renorm u r this hw
 
-theorem zext_nrm (a r : SI) (nl : Nat) (ha : a.WF) (hnb : a.bottom = false) (na : Nrm a) (hnl : a.bits ≤ nl) (hw : r.WF)
-    (h : a.zeroExtend nl = .ok r) : Nrm r := by
-  have hnl0 : 0 < nl := Nat.lt_of_lt_of_le ha.1 hnl
-  unfold SI.zeroExtend at h
-  by_cases hwrap : (!a.bottom && decide (a.lb > a.ub)) = true
-  · rw [if_pos hwrap] at h
-    have hw' : a.ub < a.lb := by simpa [hnb] using hwrap
-    have hsp := ssplit_wrap a ha hw'
-    simp only [] at hsp
-    rw [hsp] at h
-    simp only [bind, Except.bind] at h
-    split at h
-    · -- one piece
-      simp only [List.map_cons, List.map_nil] at h
-      unfold leastUpperBound at h
-      exact nrm_of_renorm _ r (pure_ok _ _ h) hw
-    · simp only [List.map_cons, List.map_nil] at h
-      unfold leastUpperBound at h
-      have hr := pure_ok _ _ h
-      rw [hr]
-      apply pseudoJoin_nrm_nb _ _ _ hnl0
-      · show (SI.new _ _ _ _).renorm.bottom = false
-        unfold SI.renorm; rw [new_bottom]; simp
-      · show (SI.new _ _ _ _).renorm.bottom = false
-        unfold SI.renorm; rw [new_bottom]; simp
-  · rw [if_neg hwrap] at h
-    have hr := pure_ok _ _ h
-    rw [hr, na]
-    exact widen_bits_nrm a nl ha hnb na hnl
-
 theorem bin_proved_nrm (op : BinOp) (hop : restBin op = false) (a b r : SI) (o o' : Orders) (wa : a.WF)
     (hw : r.WF) (h : applyBin op a b o = .ok (r, o')) : Nrm r := by
   cases op <;> simp only [restBin] at hop <;> try (exact absurd hop (by decide))
@@ -430,7 +398,7 @@ theorem convBV_rest_good (anno : Nat → SI) (env : Nat → Nat)
     obtain ⟨⟨⟨wa, ba⟩, ma⟩, na⟩ := convBV_rest_good anno env hctx hnrm a o p1.1 p1.2 Ra hdef hwt h1
     obtain ⟨x0, hx0⟩ := defBV_some env a hdef
     obtain ⟨⟨wr, br⟩, mr⟩ := zext_sound p1.1.si r (k + p1.1.si.bits) wa (ma x0 hx0).1.1 (by omega) h2
-    refine ⟨?_, zext_nrm p1.1.si r (k + p1.1.si.bits) wa (ma x0 hx0).1.1 na (by omega) wr h2⟩
+    refine ⟨?_, zeroExtend_nrm p1.1.si r (k + p1.1.si.bits) wa (ma x0 hx0).1.1 na (by omega) wr h2⟩
     refine ⟨⟨wr, by rw [br, ba]; rfl⟩, ?_⟩
     intro v hv
     simp only [evalBV] at hv
@@ -447,10 +415,11 @@ theorem convBV_rest_good (anno : Nat → SI) (env : Nat → Nat)
     obtain ⟨keeps, h3, h⟩ := bind_ok _ _ _ h
     have := pure_ok _ _ h
     cases this
-    have H := R (by simp [usesRestBV])
-    obtain ⟨⟨⟨wa, ba⟩, ma⟩, na⟩ := convBV_rest_good anno env hctx hnrm a o p1.1 p1.2 (fun _ => H) hdef hwt h1
-    obtain ⟨⟨⟨wr, br⟩, nr⟩, mr⟩ := H.sext p1.1.si r k wa h2
-    refine ⟨?_, nr⟩
+    have Ra : usesRestBV a = true → OpsRest := fun hh => R (by simp [usesRestBV, hh])
+    obtain ⟨⟨⟨wa, ba⟩, ma⟩, na⟩ := convBV_rest_good anno env hctx hnrm a o p1.1 p1.2 Ra hdef hwt h1
+    obtain ⟨x0, hx0⟩ := defBV_some env a hdef
+    obtain ⟨⟨wr, br⟩, mr⟩ := sext_sound p1.1.si r (k + p1.1.si.bits) wa (ma x0 hx0).1.1 na (by omega) h2
+    refine ⟨?_, sext_nrm p1.1.si r (k + p1.1.si.bits) wa (ma x0 hx0).1.1 na (by omega) wr h2⟩
     refine ⟨⟨wr, by rw [br, ba]; rfl⟩, ?_⟩
     intro v hv
     simp only [evalBV] at hv
@@ -463,7 +432,7 @@ theorem convBV_rest_good (anno : Nat → SI) (env : Nat → Nat)
     | false => simp at hj
     | true =>
       simp only [if_true] at hj
-      have hsame := H.sextKeeps p1.1.si k x wa h3 (ma x hx).1
+      have hsame := sextKeeps_sound p1.1.si k x wa h3 (ma x hx).1
       rw [← ba, hsame]
       exact (ma x hx).2 j hj
   | .extract hi lo a, o, av, o', R, hdef, hwt, h => by
